@@ -309,18 +309,35 @@ pub fn replay_dist(args: &Args) {
             out.line(&json!({"id": n, "status": "ok", "nontrivial": nontrivial}));
         }
     }
-    // the other documented panic: profiles of different games
-    let tree = strat_game([&[2], &[2]], [0, 0]);
-    let res = util::catch(move || {
-        let g1 = tree::build(&tree).unwrap();
-        let g2 = tree::build(&tree).unwrap();
-        let w = [vec![vec![1, 1]], vec![vec![1, 1]]];
-        let a = g1.from_named(named_from(&w, [0, 0])).unwrap();
-        let b = g2.from_named(named_from(&w, [0, 0])).unwrap();
-        util::catch(std::panic::AssertUnwindSafe(|| a.distance(&b, 1.0))).is_err()
-    });
-    if res != Ok(true) {
-        out.line(&json!({"id": cases.len(), "status": "violation", "mismatch": [{"class": "panic", "what": "no panic for profiles of different games"}]}));
+    // the other documented panic: profiles of different games - two builds of one tree and two different trees, for
+    // every combination of players with / without a several-action infoset (the identity of a game must not hinge on
+    // storage that is empty for such players)
+    let shapes: [[&[usize]; 2]; 4] = [[&[2], &[2]], [&[], &[2]], [&[2], &[]], [&[], &[]]];
+    let mut n = cases.len();
+    for sa in shapes.iter() {
+        for sb in shapes.iter() {
+            let (ta, tb) = (strat_game(*sa, [1, 1]), strat_game(*sb, [1, 1]));
+            let wa = [sa[0].iter().map(|k| vec![1; *k]).collect::<Vec<_>>(), sa[1].iter().map(|k| vec![1; *k]).collect::<Vec<_>>()];
+            let wb = [sb[0].iter().map(|k| vec![1; *k]).collect::<Vec<_>>(), sb[1].iter().map(|k| vec![1; *k]).collect::<Vec<_>>()];
+            let res = util::catch(move || {
+                let g1 = tree::build(&ta).unwrap();
+                let g2 = tree::build(&tb).unwrap();
+                let a = g1.from_named(named_from(&wa, [1, 1])).unwrap();
+                let b = g2.from_named(named_from(&wb, [1, 1])).unwrap();
+                let cross = util::catch(std::panic::AssertUnwindSafe(|| a.distance(&b, 1.0))).is_err();
+                // ... while two profiles of ONE game object never panic
+                let same = util::catch(std::panic::AssertUnwindSafe(|| a.distance(&a.clone(), 1.0))).is_ok();
+                (cross, same)
+            });
+            n += 1;
+            match res {
+                Ok((true, true)) => out.line(&json!({"id": n, "status": "ok", "nontrivial": true})),
+                Ok((cross, same)) => out.line(&json!({"id": n, "status": "violation", "mismatch": [{"class": "game-identity",
+                    "what": if !cross { "no panic for profiles of different game objects" } else { "panic for two profiles of one game object" },
+                    "first": sa.iter().map(|x| x.to_vec()).collect::<Vec<_>>(), "second": sb.iter().map(|x| x.to_vec()).collect::<Vec<_>>(), "same_ok": same}]})),
+                Err(msg) => out.line(&json!({"id": n, "status": "violation", "mismatch": [{"class": "game-identity", "what": "building the games failed", "observed": msg}]})),
+            }
+        }
     }
 }
 
